@@ -14,6 +14,8 @@
 //!          in flight, the token stays in use until the connection task is dropped (3 i / 6 i), also across a shutdown
 //!    10 i  the client of the stalled connection i (ops 8/9) drains its socket: the epilogue goes out, Request::close completes; the
 //!          connection then ends - unless the request had KeepConn and its runner is still running: then it idles like after op 5
+//!    11 i  token i is handed to Token::run with a handler that panics; the task is owned by the unwinding frame
+//!    12 i  token i is held, unused, by a frame that an unrelated panic unwinds
 //!    7 r   Runner::shutdown on clone r (r >= 1, created, not yet shut down, no unfinished get_token future of it outstanding; otherwise
 //!          nothing happens): its idle connections are polled and end, which frees their slots for the other clones.  A later `1 r`
 //!          falls back to the original runner.
@@ -35,6 +37,7 @@ use fastcgi_server::async_io::{Request, Runner, Token};
 use fastcgi_server::ExitStatus;
 use futures_util::future::BoxFuture;
 use futures_util::io::{AsyncRead, AsyncWrite};
+use std::panic::{catch_unwind, AssertUnwindSafe};
 use std::io;
 use std::future::Future;
 use std::pin::Pin;
@@ -124,6 +127,11 @@ fn one_request(keep: bool) -> Vec<u8> {
     v.extend_from_slice(&[1, 4, 0, 1, 0, 0, 0, 0]);
     v.extend_from_slice(&[1, 5, 0, 1, 0, 0, 0, 0]);
     v
+}
+
+/// a handler that panics (a bug in the application): the connection task unwinds
+fn panics_at_once() -> impl for<'a, 'b> FnMut(&'a mut Request<'b, OneShot, Stall>) -> BoxFuture<'a, io::Result<ExitStatus>> {
+    |_req| Box::pin(async { panic!("handler panic (deliberate)") })
 }
 
 fn never_called() -> impl for<'a, 'b> FnMut(&'a mut Request<'b, IdleReader, Sink>) -> BoxFuture<'a, io::Result<ExitStatus>> {
@@ -269,6 +277,28 @@ fn tok_run(a: &Args) -> Args {
                         // only a connection whose runner was shut down before it started may end here: nothing new is started
                         assert!(owner[x] != 0 && clones[owner[x]].is_none(), "a connection whose epilogue cannot be written cannot finish");
                     }
+                }
+            },
+            11 | 12 => {
+                // token x leaves by UNWINDING: (11) it is inside a connection task whose handler panics, the task owned by the frame that
+                // unwinds; (12) it is held, unused, by a frame that an unrelated panic unwinds.  Its slot must be free afterwards
+                if let Some(t) = toks.get_mut(x).and_then(Option::take) {
+                    let ic = idle_counter.clone();
+                    let r = catch_unwind(AssertUnwindSafe(move || {
+                        if op == 12 {
+                            let _held = t;
+                            panic!("unrelated panic while a token is held (deliberate)");
+                        }
+                        let rd = OneShot { data: one_request(false), pos: 0 };
+                        let gate = Arc::new(std::sync::atomic::AtomicBool::new(true));
+                        let mut c = Box::pin(t.run(rd, Stall(gate), panics_at_once()));
+                        let waker = Waker::from(ic);
+                        let mut cx = Context::from_waker(&waker);
+                        let _ = c.as_mut().poll(&mut cx);
+                    }));
+                    // a connection of a runner that was shut down ends before it reads anything: then nothing panics
+                    let dead = owner[x] != 0 && clones[owner[x]].is_none();
+                    assert!(r.is_err() || (op == 11 && dead), "the deliberate panic did not propagate");
                 }
             },
             10 => {
